@@ -81,6 +81,9 @@ func (st *state) checkWord(site string) {
 	for i := 0; i < 64; i++ {
 		if ((uint64(st.word)>>uint(i))&1 == 1) != st.refW[i] {
 			st.hit(site, "membership", fmt.Sprintf("bit %d of the word is %v, the reference set says %v (word=%x)", i, !st.refW[i], st.refW[i], uint64(st.word)))
+			for j := 0; j < 64; j++ {
+				st.refW[j] = (uint64(st.word)>>uint(j))&1 == 1
+			}
 			return
 		}
 	}
@@ -94,6 +97,12 @@ func (st *state) checkReg(site string, b bitmap1024.Bit1024, ref *[1024]bool) {
 	for i := 0; i < 1024; i++ {
 		if ((uint64(b[i/64])>>uint(i%64))&1 == 1) != ref[i] {
 			st.hit(site, "membership", fmt.Sprintf("index %d: bitmap says %v, reference set says %v", i, !ref[i], ref[i]))
+			if ref == &st.refA || ref == &st.refB {
+				// resynchronise the register's reference, so that one root cause is not reported again by later operations
+				for j := 0; j < 1024; j++ {
+					ref[j] = (uint64(b[j/64])>>uint(j%64))&1 == 1
+				}
+			}
 			return
 		}
 	}
@@ -1002,9 +1011,9 @@ func spec() corr.Spec {
 			case "quick":
 				return 3000
 			case "thorough":
-				return 40000
+				return 30000
 			}
-			return 60000
+			return 40000
 		},
 		Gen: func(r *rng.R, tier string, i int) corr.Case {
 			switch x := r.Intn(20); {
